@@ -502,6 +502,94 @@ func replayMain(path string, big bool) {
 	os.Exit(0) // also ends a goroutine that is still running
 }
 
+// batchMain is the entry point of a process that runs a list of cases (one JSON case per
+// line of the file) and prints one outcome per line.  If a case kills the process - a panic
+// in a goroutine the decoder started cannot be recovered from outside - the outcomes simply
+// stop there, and the parent knows which case it was.
+func batchMain(path string) {
+	b, err := os.ReadFile(path)
+	if err != nil {
+		return
+	}
+	initSeeds()
+	leakGrace = 3 * time.Second
+	for _, line := range bytes.Split(b, []byte("\n")) {
+		if len(bytes.TrimSpace(line)) == 0 {
+			continue
+		}
+		var c tcase
+		if json.Unmarshal(line, &c) != nil {
+			fmt.Println(`{"class":"crash"}`)
+			continue
+		}
+		body := c.Body()
+		o, done := guarded(int64(len(body)), allowFor(&c), func() outcome { return runCase(&c, false) })
+		out, _ := json.Marshal(o)
+		fmt.Println(string(out))
+		os.Stdout.Sync()
+		if !done {
+			os.Exit(0) // a decode is still running in this process: let the parent start a new one
+		}
+	}
+	os.Exit(0)
+}
+
+// runBatch runs the cases in as few fresh processes as possible and returns one outcome per
+// case; a case during which the process died has class "crash" and the end of the process's
+// standard error as Err.
+func runBatch(dir string, cases []*tcase) []outcome {
+	res := make([]outcome, 0, len(cases))
+	path := dir + "/batch.jsonl"
+	for len(res) < len(cases) {
+		var buf bytes.Buffer
+		for _, c := range cases[len(res):] {
+			b, _ := json.Marshal(c)
+			buf.Write(b)
+			buf.WriteByte('\n')
+		}
+		if os.WriteFile(path, buf.Bytes(), 0o644) != nil {
+			break
+		}
+		cmd := exec.Command(os.Args[0], "-batch", path)
+		var out, errb bytes.Buffer
+		cmd.Stdout, cmd.Stderr = &out, &errb
+		done := make(chan error, 1)
+		if cmd.Start() != nil {
+			break
+		}
+		go func() { done <- cmd.Wait() }()
+		select {
+		case <-done:
+		case <-time.After(30 * time.Minute):
+			cmd.Process.Kill()
+			<-done
+		}
+		before := len(res)
+		for _, line := range bytes.Split(out.Bytes(), []byte("\n")) {
+			if len(bytes.TrimSpace(line)) == 0 || len(res) == len(cases) {
+				continue
+			}
+			var o outcome
+			if json.Unmarshal(line, &o) != nil {
+				o = outcome{Class: "crash", Err: string(line)}
+			}
+			res = append(res, o)
+		}
+		if len(res) < len(cases) && (len(res) == before || !strings.Contains("timeout hang", res[len(res)-1].Class) || res[len(res)-1].Class == "") {
+			// the process ended before this case was answered: it died in it
+			msg := errb.String()
+			if len(msg) > 1500 {
+				msg = msg[:1500]
+			}
+			res = append(res, outcome{Class: "crash", Phase: "read", Err: strings.TrimSpace(msg)})
+		}
+	}
+	for len(res) < len(cases) {
+		res = append(res, outcome{Class: "crash", Err: "the batch could not be run"})
+	}
+	return res
+}
+
 // ---- bounds documented by the code ----
 
 // ccittBound is the cap FilterCCITTFax.toParams documents: at most
